@@ -289,7 +289,7 @@ def gen_c11(rng, tier):
     for fam, args in cat:
         byfam.setdefault(fam, []).append(args)
     cases = []
-    per = 2 if tier == 'quick' else 1000
+    per = 2 if tier == 'quick' else 8
     maxoff = 10 if tier == 'quick' else 24
     for fam in FAM:
         lst = byfam.get(fam, [])
@@ -297,6 +297,9 @@ def gen_c11(rng, tier):
             # fixed positions of the catalogue (a small non-empty state and one from the middle): the quick tier must meet the same
             # states whatever the seed, which only varies the item values; the thorough tier enumerates every catalogue entry
             lst = [lst[2], lst[len(lst) // 2]]
+        elif tier == 'thorough' and len(lst) > per:
+            step = (len(lst) - 1) / float(per - 1)       # eight catalogue states spread over all state classes (time budget of the thorough tier)
+            lst = [lst[int(round(k * step))] for k in range(per)]
         for k, args in enumerate(lst[:per]):
             ops = [build_op(fam, args)]
             paths = [0, 1] + ([2] if fam in HAS_WRAP else []) + ([3] if tier == 'thorough' else [])
@@ -383,6 +386,9 @@ def oracle_c11(case, irecs, mrecs):
             continue
         what = 'prefix' if op[0] == 4 else 'corrupt'
         path = PATHS.get(op[2], str(op[2]))
+        pathname = path
+        if path == 'stream_exceptions':
+            path = 'stream'          # same reader, same defects: one signature (the text says which stream flavour)
         if R == [-1] or len(R) < 12:
             fails.append(dict(sig='c11_enumeration_failed:%s' % fam, what='the enumeration itself failed (serialize threw?)', op_index=i))
             continue
@@ -401,14 +407,14 @@ def oracle_c11(case, irecs, mrecs):
                 where = 'prefix lengths %s of a %d-byte image' % (', '.join(str(x) for x in idxs[:12]) + (' ...' if len(idxs) > 12 or truncated else ''), total)
             else:
                 where = 'mutations (byte position, replacement #) %s' % (', '.join('(%d,%d)' % (x // 8, x % 8) for x in idxs[:12]) + (' ...' if len(idxs) > 12 or truncated else ''))
-            fails.append(dict(sig=sig, what='%s reader of %s [build args %s]: %s at %s%s' % (path, fam, ' '.join('%x' % a for a in case['ops'][0][3:]),
+            fails.append(dict(sig=sig, what='%s reader of %s [build args %s]: %s at %s%s' % (pathname, fam, ' '.join('%x' % a for a in case['ops'][0][3:]),
                               {'accepted_different': 'a strict prefix is ACCEPTED and yields a different sketch', 'allocation_over_cap': 'allocation request above the 64 MiB cap',
                                'leak': 'allocation balance non-zero after the attempt (leak)', 'memory_error': 'sanitizer report (' + kind + ' in ' + fn + ')', 'timeout': 'no answer within 6 s',
                                'crash': 'the process died (' + kind + ' ' + fn + ')'}.get(name, name), where, ''), op_index=i, offs=idxs[:40]))
     return fails
 
-RULE_C11 = ('exhaustive fault enumeration on the implementation (enumeration, not proof): quick tier two fixed catalogue states per type/serde combination (26 combinations), thorough tier every '
-            'catalogue state (all state classes); for images up to 464 bytes (thorough 6064) EVERY strict prefix length 0..size-1, for larger ones the first 400 (6000) lengths, the last 64 and 400 (6000) evenly '
+RULE_C11 = ('exhaustive fault enumeration on the implementation (enumeration, not proof): quick tier two fixed catalogue states per type/serde combination (26 combinations), thorough tier eight '
+            'catalogue states spread over the state classes; for images up to 464 bytes (thorough 6064) EVERY strict prefix length 0..size-1, for larger ones the first 400 (6000) lengths, the last 64 and 400 (6000) evenly '
             'spaced ones; plus hand-made hostile images no single-byte mutation reaches (HLL LIST image with compact flag and 9 / 255 coupons); and EVERY byte of the preamble (first max(32, 8*preamble_longs) bytes) x 8 replacement values (0x00, 0xFF, +1, -1, bit 0 flipped, bit 7 '
             'flipped, 0x7F, 0x80) is given to deserialize(bytes) in an exact-size heap block, to deserialize(stream) and to wrap() where the family has one (thorough: also a stream with '
             'exceptions enabled); expected: prefixes rejected (or the very same sketch), corrupted images rejected or usable through the public getters; failures: sanitizer report, crash, '
